@@ -78,7 +78,7 @@ class DiscriminativeModel(ClusterMixin, BaseEstimator, ABC):
         "solver": [StrOptions({"sgd", "adam"})],
         "batch_size": [Interval(Integral, 1, None, closed="left"), None],
         "verbose": [bool],
-        "random_state": [Interval(Integral, 0, None, closed="left"), None]
+        "random_state": ["random_state"]
     }
 
     def __init__(self, n_clusters=3, gemini="mmd_ova", max_iter=1000, learning_rate=1e-3, solver="adam",
